@@ -6,7 +6,7 @@ from hypothesis import strategies as st
 from ECAgent.Core import Model
 from ECAgent.Environments import DiscreteWorld, GridWorld, LineWorld, discrete_grid_pos_to_id
 from vf.engine import Violation, InvalidCase
-from vf.fixtures import check
+from vf.fixtures import check, wone_of
 
 PROPERTY = "C09"
 BUDGET = {"quick": 48, "thorough": 40}
@@ -104,11 +104,11 @@ def run_case(case):
 
 
 def strategy(tier):
-    ext = lambda n: st.one_of(st.just(0), st.integers(1, n))
+    ext = lambda n: wone_of(st.just(0), st.integers(1, n))
     disc = st.builds(lambda w, h, d: {"kind": "discrete", "w": w, "h": h, "d": d}, ext(12), ext(10), ext(8))
     line = st.builds(lambda w: {"kind": "line", "w": w}, st.integers(1, 60))
     grid = st.builds(lambda w, h: {"kind": "grid", "w": w, "h": h}, st.integers(1, 14), st.integers(1, 12))
-    return st.one_of(disc, disc, disc, line, grid)
+    return wone_of(disc, disc, disc, line, grid)
 
 
 def exhaustive(tier):
